@@ -41,6 +41,8 @@ type spec struct {
 	// wire: REQ dials a transport-level peer over the real transport Tr with NConn connections; Steps is a
 	// script of T (retry interval elapses) D (the carrying connection is closed by the peer) P (peer silent
 	// beyond the send deadline DeadMs).  senddeadline (vt): Mode ready | held, Via self | all, Steps of T D
+	// Empty: the reply that answers the request has an EMPTY body (on the wire just the 4-byte request id)
+	Empty bool   `json:"empty,omitempty"`
 	Tr    string `json:"tr,omitempty"`
 	NConn int    `json:"nconn,omitempty"`
 	Steps string `json:"steps,omitempty"`
@@ -73,16 +75,18 @@ func TestC04(t *testing.T) {
 				sp.Faults = 1 + rnd.Intn(4)
 			}
 		}
-		cases = append(cases, mon.CaseSpec{Name: fmt.Sprintf("%s/%s/r%d", sp.Start, sp.End, sp.RetryMs), Spec: sp})
+		// the answering reply has an empty body in 2 of 7 cases (7 is coprime to the cell enumeration)
+		sp.Empty = i%7 == 1 || i%7 == 4
+		cases = append(cases, mon.CaseSpec{Name: fmt.Sprintf("%s/%s/r%d%s", sp.Start, sp.End, sp.RetryMs, map[bool]string{true: "/empty"}[sp.Empty]), Spec: sp})
 	}
 	for i := 0; i < n/6; i++ {
-		cases = append(cases, mon.CaseSpec{Name: "multictx", Spec: spec{NCtx: 2 + rnd.Intn(4), NPipes: 1 + rnd.Intn(3), RetryMs: 3600000, Start: "multictx"}})
+		cases = append(cases, mon.CaseSpec{Name: "multictx", Spec: spec{NCtx: 2 + rnd.Intn(4), NPipes: 1 + rnd.Intn(3), RetryMs: 3600000, Start: "multictx", Empty: i%3 == 1}})
 	}
 	for i := 0; i < n/12; i++ {
 		cases = append(cases, mon.CaseSpec{Name: "supersede-race", Spec: spec{NCtx: 1 + rnd.Intn(3), NPipes: 2, RetryMs: 10000, Start: "supersede-race"}})
 	}
 	for i := 0; i < n/12; i++ {
-		cases = append(cases, mon.CaseSpec{Name: "answered", Spec: spec{NCtx: 1 + rnd.Intn(3), NPipes: 1 + rnd.Intn(3), RetryMs: []int{0, 30, 60, 3600000}[i%4], Start: "answered"}})
+		cases = append(cases, mon.CaseSpec{Name: "answered", Spec: spec{NCtx: 1 + rnd.Intn(3), NPipes: 1 + rnd.Intn(3), RetryMs: []int{0, 30, 60, 3600000}[i%4], Start: "answered", Empty: i%3 == 1}})
 	}
 	// the application changes the retry time while a request is outstanding on a live connection
 	for i := 0; i < n/10; i++ {
@@ -128,7 +132,8 @@ func TestC04(t *testing.T) {
 		default:
 			sp.Steps = []string{"T", "TD", "DT", "TT", "PTD", "DTD", "PDT"}[rnd.Intn(7)]
 		}
-		cases = append(cases, mon.CaseSpec{Name: fmt.Sprintf("wire/%s/%s/r%d/d%d", sp.Tr, sp.Steps, sp.RetryMs, sp.DeadMs), Spec: sp})
+		sp.Empty = i%5 == 2
+		cases = append(cases, mon.CaseSpec{Name: fmt.Sprintf("wire/%s/%s/r%d/d%d%s", sp.Tr, sp.Steps, sp.RetryMs, sp.DeadMs, map[bool]string{true: "/empty"}[sp.Empty]), Spec: sp})
 	}
 	// a send deadline (no best effort) elapses after the request was handed to a peer that stays silent
 	for i := 0; i < n/10; i++ {
@@ -141,8 +146,22 @@ func TestC04(t *testing.T) {
 		}
 		cases = append(cases, mon.CaseSpec{Name: fmt.Sprintf("senddeadline/%s/%s/d%d/r%d", sp.Mode, sp.Steps, sp.DeadMs, sp.RetryMs), Spec: sp})
 	}
+	// a connection is lost while the application's pipe-event hook is still handling its Attaching/Attached event
+	for i := 0; i < n/10; i++ {
+		sp := spec{Start: "hookloss", Mode: []string{"hookclose", "peerdrop", "peerdrop", "hookclose", "attaching"}[i%5],
+			RetryMs: []int{3600000, 0, 30000}[(i/5+i)%3], Via: []string{"fresh", "requeued"}[rnd.Intn(2)],
+			NCtx: 1 + rnd.Intn(3), NPipes: rnd.Intn(3), Empty: i%4 == 3}
+		if sp.RetryMs == 0 {
+			sp.Via = "fresh" // (losing the first carrier would already cancel the request)
+		}
+		cases = append(cases, mon.CaseSpec{Name: fmt.Sprintf("hookloss/%s/%s/r%d", sp.Mode, sp.Via, sp.RetryMs), Spec: sp})
+	}
 	r.Run(cases, func(c *mon.Case) {
 		sp := c.Spec.(spec)
+		if sp.Start == "hookloss" {
+			runHookLoss(c, sp)
+			return
+		}
 		if sp.Start == "wire" {
 			runWire(c, sp)
 			return
@@ -492,12 +511,12 @@ func runScript(c *mon.Case, sp spec) {
 		case "answer":
 			live := rig.LivePipes()
 			p := live[c.Rand.Intn(len(live))]
-			p.Inject(hx.ReplyWire(id, 1))
+			p.Inject(replyWire(id, 1, sp.Empty))
 			v, err, ok := waitRecv()
 			if !ok {
 				return
 			}
-			if err != nil || !bytes.Equal(v.([]byte), hx.ReplyWire(id, 1)[4:]) {
+			if err != nil || !bytes.Equal(v.([]byte), replyWire(id, 1, sp.Empty)[4:]) {
 				c.Violate("req/answered-recv-failed", "a connected peer answered request %08x but Recv returned %q, %v", id, v, err)
 				return
 			}
@@ -535,12 +554,12 @@ func runScript(c *mon.Case, sp spec) {
 				events += "T2"
 			}
 			live := rig.LivePipes()
-			live[c.Rand.Intn(len(live))].Inject(hx.ReplyWire(tx2[0].ID, 2))
+			live[c.Rand.Intn(len(live))].Inject(replyWire(tx2[0].ID, 2, sp.Empty))
 			rc2 := mon.Go("Recv2", func() (interface{}, error) { b, err := ctx.Recv(); return b, err })
 			if !c.AwaitOrViolate("req/recv-stuck-after-supersede", "Recv of the superseding request", rc2.Done, mon.AwaitOpts{MaxTimer: maxTimer}) {
 				return
 			}
-			if v, err, _ := rc2.Result(); err != nil || !bytes.Equal(v.([]byte), hx.ReplyWire(tx2[0].ID, 2)[4:]) {
+			if v, err, _ := rc2.Result(); err != nil || !bytes.Equal(v.([]byte), replyWire(tx2[0].ID, 2, sp.Empty)[4:]) {
 				c.Violate("req/superseding-request-not-completed", "the request that superseded a pending one was answered by a peer but Recv returned %q, %v", v, err)
 			}
 		case "ctxclose":
@@ -721,7 +740,7 @@ func runScript(c *mon.Case, sp spec) {
 			return
 		}
 		live := rig.LivePipes()
-		live[0].Inject(hx.ReplyWire(ptx[0].ID, 99))
+		live[0].Inject(replyWire(ptx[0].ID, 99, sp.Empty && sp.End != "answer"))
 		rc := mon.Go("ProbeRecv", func() (interface{}, error) { b, err := pc.Recv(); return b, err })
 		if !c.AwaitOrViolate("req/probe-recv-stuck", "probe Recv after the script", rc.Done, mon.AwaitOpts{MaxTimer: maxTimer}) {
 			return
@@ -805,12 +824,12 @@ func runMultiCtx(c *mon.Case, sp spec) {
 		i := i
 		txs := rig.TxsOf(i, 1)
 		live := rig.LivePipes()
-		live[i%len(live)].Inject(hx.ReplyWire(txs[0].ID, 100+i))
+		live[i%len(live)].Inject(replyWire(txs[0].ID, 100+i, sp.Empty && i%2 == 0))
 		k := mon.Go("Recv", func() (interface{}, error) { b, e := rig.Ctxs[i].Recv(); return b, e })
 		if !c.AwaitOrViolate("req/recv-stuck-at-answer", fmt.Sprintf("ctx %d Recv of its reply", i), k.Done, mon.AwaitOpts{}) {
 			return
 		}
-		if v, e, _ := k.Result(); e != nil || !bytes.Equal(v.([]byte), hx.ReplyWire(txs[0].ID, 100+i)[4:]) {
+		if v, e, _ := k.Result(); e != nil || !bytes.Equal(v.([]byte), replyWire(txs[0].ID, 100+i, sp.Empty && i%2 == 0)[4:]) {
 			c.Violate("req/answered-recv-failed", "ctx %d: Recv returned %q, %v", i, v, e)
 		}
 	}
